@@ -201,12 +201,20 @@ func (service *TranslatorService) DecryptSearchable(ctx context.Context, data, h
 		dataToDecrypt = append(hash, data...)
 	}
 	logger.Debugln("Decrypt AcraStruct")
-	hashPart, containerData := hmac.ExtractHashAndData(dataToDecrypt)
-	if hashPart == nil {
-		return nil, ErrCantDecrypt
-	}
 	accessContext := base.NewAccessContext(base.WithClientID(clientID))
 	dataCtx := base.SetAccessContextToContext(ctx, accessContext)
+	hashPart, containerData := hmac.ExtractHashAndData(dataToDecrypt)
+	if hashPart == nil {
+		// data without a hash prefix cannot be a searchable AcraStruct but still may be a poison record
+		// (the same check DecryptSymSearchable does in this situation)
+		logger.WithField(logging.FieldKeyEventCode, logging.EventCodeErrorTranslatorCantDecryptAcraStruct).
+			Errorln("Can't split ciphertext to hash and encrypted data")
+		_, _, poisonErr := service.poisonDetector.OnColumn(dataCtx, dataToDecrypt)
+		if poisonErr != nil {
+			logger.WithField(logging.FieldKeyEventCode, logging.EventCodeErrorDecryptorCantCheckPoisonRecord).WithError(poisonErr).Errorln("Can't check for poison record with AcraStruct, possible missing Poison record decryption key")
+		}
+		return nil, ErrCantDecrypt
+	}
 	dataContext := &base.DataProcessorContext{Keystore: service.data.Keystorage, Context: dataCtx}
 	handler, err := crypto.GetHandlerByEnvelopeID(crypto.AcraStructEnvelopeID)
 	if err != nil {
